@@ -777,6 +777,10 @@ bool QXmppStunMessage::decode(const QByteArray &buffer, const QByteArray &key, Q
             }
 
             // stop parsing, no more attributes are allowed
+            if (!key.isEmpty() && !after_integrity) {
+                *errors << u"Missing message integrity"_s;
+                return false;
+            }
             return true;
 
         } else if (a_type == IceControlling) {
@@ -805,6 +809,12 @@ bool QXmppStunMessage::decode(const QByteArray &buffer, const QByteArray &key, Q
         }
         stream.skipRawData(pad_length);
         done += 4 + a_length + pad_length;
+    }
+
+    // a message that is to be verified with a key must carry a MESSAGE-INTEGRITY attribute
+    if (!key.isEmpty() && !after_integrity) {
+        *errors << u"Missing message integrity"_s;
+        return false;
     }
     return true;
 }
